@@ -2,19 +2,20 @@
 
 use crate::engine::*;
 use proptest::prelude::*;
-use serde::{Deserialize, Serialize};
-use std::collections::{BTreeMap, BTreeSet, VecDeque};
+use serde::{de::DeserializeOwned, Deserialize, Serialize};
+use std::collections::{BTreeMap, BTreeSet, HashSet, VecDeque};
 use texcraft_stdext::algorithms::substringsearch::Matcher;
 use texcraft_stdext::collections::groupingmap::{
     BackingContainer, GroupingContainer, Item, Scope,
 };
 use texcraft_stdext::collections::interner::Interner;
 use texcraft_stdext::collections::nevec::Nevec;
+use texcraft_stdext::nevec;
 
 // ---------------------------------------------------------------------------------
 // Scoped map
 
-#[derive(Clone, Copy, Debug, PartialEq, Eq, Serialize, Deserialize)]
+#[derive(Clone, Debug, PartialEq, Eq, Serialize, Deserialize)]
 pub enum MOp {
     Local(u8, u8),
     Global(u8, u8),
@@ -22,6 +23,23 @@ pub enum MOp {
     End,
     /// Replace the container by `iter_all().collect()`.
     Rebuild,
+    /// `extend(pairs)`: documented as local inserts in iteration order.
+    Extend(Vec<(u8, u8)>),
+    /// Replace the container by `pairs.into_iter().collect()` (`FromIterator<(K, V)>`, the way
+    /// texlang seeds its command map): no open group, a later pair of the same key wins.
+    Collect(Vec<(u8, u8)>),
+    /// Replace the container by its (derived) serde_json round trip.
+    Serde,
+}
+
+/// What an operation reports back to its caller.
+#[derive(Clone, Copy, Debug, PartialEq, Eq)]
+enum Outcome {
+    Done,
+    /// `end_group` without an open group.
+    Rejected,
+    /// The flag returned by `insert`: the key had a visible value before the call.
+    Inserted(bool),
 }
 
 type Frame = BTreeMap<usize, u8>;
@@ -35,16 +53,17 @@ impl Model {
     fn new() -> Self {
         Model { frames: vec![Frame::new()] }
     }
-    /// Returns false when the operation must be rejected (end at depth 0).
-    fn apply(&mut self, op: MOp) -> bool {
+    fn apply(&mut self, op: &MOp) -> Outcome {
         match op {
             MOp::Local(k, v) => {
-                self.frames.last_mut().unwrap().insert(k as usize, v);
+                return Outcome::Inserted(self.frames.last_mut().unwrap().insert(*k as usize, *v).is_some());
             }
             MOp::Global(k, v) => {
+                let existed = self.top().contains_key(&(*k as usize));
                 for f in &mut self.frames {
-                    f.insert(k as usize, v);
+                    f.insert(*k as usize, *v);
                 }
+                return Outcome::Inserted(existed);
             }
             MOp::Begin => {
                 let top = self.frames.last().unwrap().clone();
@@ -52,50 +71,94 @@ impl Model {
             }
             MOp::End => {
                 if self.frames.len() == 1 {
-                    return false;
+                    return Outcome::Rejected;
                 }
                 self.frames.pop();
             }
-            MOp::Rebuild => {}
+            MOp::Extend(pairs) => {
+                for (k, v) in pairs {
+                    self.frames.last_mut().unwrap().insert(*k as usize, *v);
+                }
+            }
+            MOp::Collect(pairs) => {
+                let mut f = Frame::new();
+                for (k, v) in pairs {
+                    f.insert(*k as usize, *v);
+                }
+                self.frames = vec![f];
+            }
+            MOp::Rebuild | MOp::Serde => {}
         }
-        true
+        Outcome::Done
     }
     fn top(&self) -> &Frame {
         self.frames.last().unwrap()
     }
 }
 
-fn rebuild<T: BackingContainer<usize, u8>>(c: &GroupingContainer<usize, u8, T>) -> GroupingContainer<usize, u8, T> {
+/// The two backing containers of the repository, plus what the `Serde` operation needs.
+pub trait Backing: BackingContainer<usize, u8> + Serialize + DeserializeOwned {}
+impl<T: BackingContainer<usize, u8> + Serialize + DeserializeOwned> Backing for T {}
+type GC<T> = GroupingContainer<usize, u8, T>;
+
+fn rebuild<T: Backing>(c: &GC<T>) -> GC<T> {
     c.iter_all().map(Item::adapt_map(|(k, v): (usize, &u8)| (k, *v))).collect()
 }
 
-fn apply_impl<T: BackingContainer<usize, u8>>(c: &mut GroupingContainer<usize, u8, T>, op: MOp) -> Result<bool, String> {
-    match op {
-        MOp::Local(k, v) => {
-            c.insert(k as usize, v, Scope::Local);
+fn apply_impl<T: Backing>(c: &mut GC<T>, op: &MOp) -> Result<Outcome, String> {
+    Ok(match op {
+        MOp::Local(k, v) => Outcome::Inserted(c.insert(*k as usize, *v, Scope::Local)),
+        MOp::Global(k, v) => Outcome::Inserted(c.insert(*k as usize, *v, Scope::Global)),
+        MOp::Begin => {
+            c.begin_group();
+            Outcome::Done
         }
-        MOp::Global(k, v) => {
-            c.insert(k as usize, v, Scope::Global);
+        MOp::End => {
+            if c.end_group().is_ok() {
+                Outcome::Done
+            } else {
+                Outcome::Rejected
+            }
         }
-        MOp::Begin => c.begin_group(),
-        MOp::End => return Ok(c.end_group().is_ok()),
         MOp::Rebuild => {
             *c = rebuild(c);
+            Outcome::Done
         }
-    }
-    Ok(true)
+        MOp::Extend(pairs) => {
+            c.extend(pairs.iter().map(|(k, v)| (*k as usize, *v)));
+            Outcome::Done
+        }
+        MOp::Collect(pairs) => {
+            *c = pairs.iter().map(|(k, v)| (*k as usize, *v)).collect();
+            Outcome::Done
+        }
+        MOp::Serde => {
+            let text = serde_json::to_string(&*c).map_err(|e| format!("serialising the container: {e}"))?;
+            *c = serde_json::from_str(&text).map_err(|e| format!("deserialising the container from {text}: {e}"))?;
+            Outcome::Done
+        }
+    })
 }
 
-fn compare<T: BackingContainer<usize, u8>>(c: &GroupingContainer<usize, u8, T>, m: &Model, keys: &[usize], at: &str) -> Result<(), String> {
+fn compare<T: Backing>(c: &GC<T>, m: &Model, keys: &[usize], at: &str) -> Result<(), String> {
+    let bc = c.backing_container();
     for k in keys {
         let a = c.get(k).copied();
         let b = m.top().get(k).copied();
         if a != b {
             return Err(format!("{at}: get({k}) = {a:?}, model {b:?}"));
         }
+        // documented: get == backing_container().get
+        let d = BackingContainer::<usize, u8>::get(bc, k).copied();
+        if d != b {
+            return Err(format!("{at}: backing_container().get({k}) = {d:?}, get({k}) = {a:?}, model {b:?}"));
+        }
     }
     if c.len() != m.top().len() {
         return Err(format!("{at}: len {} vs model {}", c.len(), m.top().len()));
+    }
+    if c.is_empty() != m.top().is_empty() {
+        return Err(format!("{at}: is_empty() = {} but the model has {} visible entries", c.is_empty(), m.top().len()));
     }
     let mut vis: Vec<(usize, u8)> = c.iter().map(|(k, v)| (k, *v)).collect();
     vis.sort();
@@ -103,14 +166,19 @@ fn compare<T: BackingContainer<usize, u8>>(c: &GroupingContainer<usize, u8, T>, 
     if vis != exp {
         return Err(format!("{at}: iter() {vis:?} vs model {exp:?}"));
     }
+    let mut bvis: Vec<(usize, u8)> = BackingContainer::<usize, u8>::iter(bc).map(|(k, v)| (k, *v)).collect();
+    bvis.sort();
+    if bvis != exp || BackingContainer::<usize, u8>::len(bc) != exp.len() {
+        return Err(format!("{at}: backing_container() holds {bvis:?} (len {}) vs model {exp:?}", BackingContainer::<usize, u8>::len(bc)));
+    }
     Ok(())
 }
 
 /// Unwind both to depth 0, comparing after each end_group: this is what makes saved
 /// (invisible) values observable.
-fn unwind_compare<T: BackingContainer<usize, u8>>(mut c: GroupingContainer<usize, u8, T>, mut m: Model, keys: &[usize], at: &str) -> Result<(), String> {
+fn unwind_compare<T: Backing>(mut c: GC<T>, mut m: Model, keys: &[usize], at: &str) -> Result<(), String> {
     loop {
-        let ok_m = m.apply(MOp::End);
+        let ok_m = m.apply(&MOp::End) == Outcome::Done;
         let ok_c = c.end_group().is_ok();
         if ok_m != ok_c {
             return Err(format!("{at}: unwinding: end_group ok={ok_c}, model ok={ok_m}"));
@@ -122,14 +190,14 @@ fn unwind_compare<T: BackingContainer<usize, u8>>(mut c: GroupingContainer<usize
     }
 }
 
-fn run_history<T: BackingContainer<usize, u8>>(ops: &[MOp], keys: &[usize], check_rebuild_suffixes: usize, alphabet: &[MOp]) -> Result<(), String> {
-    let mut c: GroupingContainer<usize, u8, T> = Default::default();
+fn run_history<T: Backing>(ops: &[MOp], keys: &[usize], check_rebuild_suffixes: usize, alphabet: &[MOp]) -> Result<(), String> {
+    let mut c: GC<T> = Default::default();
     let mut m = Model::new();
     for (i, op) in ops.iter().enumerate() {
-        let ok_m = m.apply(*op);
-        let ok_c = apply_impl(&mut c, *op)?;
-        if ok_m != ok_c {
-            return Err(format!("step {i} {op:?}: implementation ok={ok_c}, model ok={ok_m}"));
+        let out_m = m.apply(op);
+        let out_c = apply_impl(&mut c, op)?;
+        if out_m != out_c {
+            return Err(format!("step {i} {op:?}: implementation reports {out_c:?}, model {out_m:?}"));
         }
         compare(&c, &m, keys, &format!("after step {i} {op:?}"))?;
     }
@@ -140,10 +208,10 @@ fn run_history<T: BackingContainer<usize, u8>>(ops: &[MOp], keys: &[usize], chec
         for a in alphabet {
             let mut r1 = rebuild(&c);
             let mut m1 = m.clone();
-            let ok_m = m1.apply(*a);
-            let ok_c = apply_impl(&mut r1, *a)?;
-            if ok_m != ok_c {
-                return Err(format!("rebuilt, then {a:?}: ok={ok_c} model ok={ok_m}"));
+            let out_m = m1.apply(a);
+            let out_c = apply_impl(&mut r1, a)?;
+            if out_m != out_c {
+                return Err(format!("rebuilt, then {a:?}: implementation reports {out_c:?}, model {out_m:?}"));
             }
             compare(&r1, &m1, keys, &format!("rebuilt, then {a:?}"))?;
             if check_rebuild_suffixes >= 2 {
@@ -151,12 +219,13 @@ fn run_history<T: BackingContainer<usize, u8>>(ops: &[MOp], keys: &[usize], chec
                     let mut r2 = rebuild(&r1);
                     // r2 is a rebuild of a continued rebuild; continue it with b
                     let mut m2 = m1.clone();
-                    let ok_m = m2.apply(*b);
-                    let ok_c = apply_impl(&mut r2, *b)?;
-                    if ok_m != ok_c {
-                        return Err(format!("rebuilt, then {a:?} {b:?}: ok={ok_c} model ok={ok_m}"));
+                    let out_m = m2.apply(b);
+                    let out_c = apply_impl(&mut r2, b)?;
+                    if out_m != out_c {
+                        return Err(format!("rebuilt, then {a:?} {b:?}: implementation reports {out_c:?}, model {out_m:?}"));
                     }
                     compare(&r2, &m2, keys, &format!("rebuilt, then {a:?} {b:?}"))?;
+                    unwind_compare(r2, m2, keys, &format!("rebuilt, then {a:?}, rebuilt again, then {b:?}"))?;
                 }
             }
             unwind_compare(r1, m1, keys, &format!("rebuilt, then {a:?}"))?;
@@ -180,6 +249,19 @@ fn small_alphabet(k0: u8, k1: u8) -> Vec<MOp> {
     v
 }
 
+/// The small alphabet plus the entry points texlang uses besides insert/begin/end:
+/// `extend` and `FromIterator<(K, V)>` (empty, two keys, the same key twice).
+fn entry_alphabet(k0: u8, k1: u8) -> Vec<MOp> {
+    let mut v = small_alphabet(k0, k1);
+    v.push(MOp::Extend(vec![]));
+    v.push(MOp::Extend(vec![(k0, 1), (k1, 2)]));
+    v.push(MOp::Extend(vec![(k1, 1), (k1, 2)]));
+    v.push(MOp::Collect(vec![]));
+    v.push(MOp::Collect(vec![(k0, 2), (k1, 1)]));
+    v.push(MOp::Collect(vec![(k1, 2), (k1, 1)]));
+    v
+}
+
 fn history_from_index(mut i: u64, max_len: usize, alphabet: &[MOp]) -> Vec<MOp> {
     // lengths 0..=max_len, shortest first
     let n = alphabet.len() as u64;
@@ -193,60 +275,124 @@ fn history_from_index(mut i: u64, max_len: usize, alphabet: &[MOp]) -> Vec<MOp> 
     }
     let mut ops = Vec::with_capacity(len);
     for _ in 0..len {
-        ops.push(alphabet[(i % n) as usize]);
+        ops.push(alphabet[(i % n) as usize].clone());
         i /= n;
     }
     ops
 }
 
 fn history_nontrivial(ops: &[MOp]) -> bool {
-    // a global insert at depth >= 1 after a local insert to the same key in an open group,
-    // followed later by an end.
-    let mut depth = 0i32;
-    let mut local_in_group: BTreeSet<u8> = BTreeSet::new();
+    // a global insert at depth >= 1 to a key that was locally changed in a group that is
+    // still open, followed later by a group end.
+    let mut open: Vec<BTreeSet<u8>> = vec![]; // locally changed keys, one set per open group
     let mut armed = false;
     for op in ops {
         match op {
-            MOp::Begin => depth += 1,
+            MOp::Begin => open.push(BTreeSet::new()),
             MOp::End => {
-                if depth > 0 {
-                    depth -= 1;
-                    if armed {
-                        return true;
-                    }
+                if open.pop().is_some() && armed {
+                    return true;
                 }
             }
             MOp::Local(k, _) => {
-                if depth > 0 {
-                    local_in_group.insert(*k);
+                if let Some(t) = open.last_mut() {
+                    t.insert(*k);
+                }
+            }
+            MOp::Extend(pairs) => {
+                if let Some(t) = open.last_mut() {
+                    t.extend(pairs.iter().map(|p| p.0));
                 }
             }
             MOp::Global(k, _) => {
-                if depth > 0 && local_in_group.contains(k) {
-                    armed = true;
+                let mut hit = false;
+                for t in &mut open {
+                    hit |= t.remove(k);
                 }
+                armed |= hit;
             }
-            MOp::Rebuild => {}
+            MOp::Collect(_) => {
+                open.clear();
+                armed = false;
+            }
+            MOp::Rebuild | MOp::Serde => {}
         }
     }
     false
 }
 
-fn map_strategy(nkeys: u8, max_len: usize) -> impl Strategy<Value = Vec<MOp>> {
-    let op = prop_oneof![
-        3 => (0..nkeys, 1u8..5).prop_map(|(k, v)| MOp::Local(k, v)),
-        3 => (0..nkeys, 1u8..5).prop_map(|(k, v)| MOp::Global(k, v)),
-        3 => Just(MOp::Begin),
-        2 => Just(MOp::End),
-        1 => Just(MOp::Rebuild),
-    ];
-    proptest::collection::vec(op, 0..max_len)
+/// True when the history tries to end a group at depth 0 after at least `after` operations.
+fn late_end_at_depth0(ops: &[MOp], after: usize) -> bool {
+    let mut depth = 0usize;
+    for (i, op) in ops.iter().enumerate() {
+        match op {
+            MOp::Begin => depth += 1,
+            MOp::End => {
+                if depth == 0 {
+                    if i >= after {
+                        return true;
+                    }
+                } else {
+                    depth -= 1;
+                }
+            }
+            MOp::Collect(_) => depth = 0,
+            _ => {}
+        }
+    }
+    false
 }
 
-fn map_bfs<T: BackingContainer<usize, u8>>(ctx: &Ctx, sub: &str, depth: usize, cap: usize, keys: &[usize], alphabet: &[MOp]) {
+fn map_classes(ops: &[MOp], case: &mut Case) {
+    case.class_if(ops.iter().any(|o| matches!(o, MOp::Rebuild)), "has_rebuild");
+    case.class_if(ops.len() >= 50, "len>=50");
+    case.class_if(matches!(ops.first(), Some(MOp::Collect(p)) if !p.is_empty()), "starts_from_collected_pairs");
+    case.class_if(ops.iter().any(|o| matches!(o, MOp::Extend(p) if !p.is_empty())), "has_extend");
+    case.class_if(ops.iter().any(|o| matches!(o, MOp::Serde)), "has_container_serde");
+    case.class_if(late_end_at_depth0(ops, 20), "end_at_depth0_after_20_ops");
+}
+
+fn map_strategy(nkeys: u8, max_len: usize) -> impl Strategy<Value = Vec<MOp>> {
+    let pairs = move || proptest::collection::vec((0..nkeys, 1u8..5), 0..6);
+    let ops = move |end_weight: u32| {
+        let op = prop_oneof![
+            6 => (0..nkeys, 1u8..5).prop_map(|(k, v)| MOp::Local(k, v)),
+            6 => (0..nkeys, 1u8..5).prop_map(|(k, v)| MOp::Global(k, v)),
+            6 => Just(MOp::Begin),
+            end_weight => Just(MOp::End),
+            2 => Just(MOp::Rebuild),
+            1 => pairs().prop_map(MOp::Extend),
+            1 => Just(MOp::Serde),
+        ];
+        proptest::collection::vec(op, 0..max_len)
+    };
+    // Three in four histories drift deeper (begin 3 : end 2), one in four keeps returning to
+    // depth 0 (begin 3 : end 4); one in four starts from a container collected from pairs.
+    let body = prop_oneof![3 => ops(4), 1 => ops(8)];
+    let start = prop_oneof![3 => Just(None), 1 => pairs().prop_map(Some)];
+    (start, body).prop_map(|(start, mut body)| {
+        if let Some(p) = start {
+            body.insert(0, MOp::Collect(p));
+        }
+        body
+    })
+}
+
+fn map_bfs<T: Backing>(ctx: &Ctx, sub: &str, depth: usize, cap: usize, keys: &[usize], alphabet: &[MOp]) {
     // Abstract state: model frames + per-frame set of locally touched keys. Distinct
     // abstract states are expanded once, through the first history that reached them.
+    let keys_v = keys.to_vec();
+    let alphabet_v = alphabet.to_vec();
+    let oracle = |ops: &Vec<MOp>, _case: &mut Case| match run_history::<T>(ops, &keys_v, 1, &alphabet_v) {
+        Ok(()) => Verdict::pass(history_nontrivial(ops) || ops.len() >= 3),
+        Err(e) => Verdict::Fail(e),
+    };
     if !matches!(ctx.mode, Mode::Generate) {
+        // Replay: the stored history goes straight through the oracle, no state enumeration.
+        run_indexed(ctx, sub, 0, false, |_| Vec::<MOp>::new(), oracle);
+        return;
+    }
+    if ctx.stop.load(std::sync::atomic::Ordering::SeqCst) {
         return;
     }
     type Abs = (Vec<Frame>, Vec<BTreeSet<usize>>);
@@ -289,7 +435,7 @@ fn map_bfs<T: BackingContainer<usize, u8>>(ctx: &Ctx, sub: &str, depth: usize, c
                     frames.pop();
                     touched.pop();
                 }
-                MOp::Rebuild => continue,
+                MOp::Rebuild | MOp::Extend(_) | MOp::Collect(_) | MOp::Serde => continue,
             }
             let n: Abs = (frames, touched);
             if seen.len() >= cap {
@@ -298,7 +444,7 @@ fn map_bfs<T: BackingContainer<usize, u8>>(ctx: &Ctx, sub: &str, depth: usize, c
             }
             if seen.insert(n.clone()) {
                 let mut h2 = h.clone();
-                h2.push(*op);
+                h2.push(op.clone());
                 queue.push_back((h2, n));
             }
         }
@@ -307,19 +453,7 @@ fn map_bfs<T: BackingContainer<usize, u8>>(ctx: &Ctx, sub: &str, depth: usize, c
     ctx.extra(sub, "bfs_distinct_states", serde_json::json!(total));
     ctx.extra(sub, "bfs_depth", serde_json::json!(depth));
     ctx.extra(sub, "bfs_capped", serde_json::json!(capped));
-    let keys = keys.to_vec();
-    let alphabet = alphabet.to_vec();
-    run_indexed(
-        ctx,
-        sub,
-        total,
-        !capped,
-        |i| histories[i as usize].clone(),
-        |ops: &Vec<MOp>, _case| match run_history::<T>(ops, &keys, 1, &alphabet) {
-            Ok(()) => Verdict::pass(history_nontrivial(ops) || ops.len() >= 3),
-            Err(e) => Verdict::Fail(e),
-        },
-    );
+    run_indexed(ctx, sub, total, !capped, |i| histories[i as usize].clone(), oracle);
 }
 
 // ---------------------------------------------------------------------------------
@@ -368,13 +502,69 @@ pub enum IOp {
     Serde,
 }
 
-fn interner_oracle<S: std::hash::BuildHasher + Default>(ops: &[IOp]) -> Result<bool, String> {
-    let mut it: Interner<std::num::NonZeroU32, S> = Default::default();
+/// Which strings share a hash bucket, as far as the harness can know it (classes only; the
+/// oracle itself never depends on it).
+type BucketFn = fn(&str) -> Option<u64>;
+fn bucket_constant(_s: &str) -> Option<u64> {
+    Some(0)
+}
+fn bucket_len(s: &str) -> Option<u64> {
+    // `impl Hash for str` writes the bytes and one 0xff byte; only equality of buckets matters here
+    Some(s.len() as u64 % 3)
+}
+fn bucket_unknown(_s: &str) -> Option<u64> {
+    None
+}
+
+#[derive(Default, Clone, Copy)]
+struct IStats {
+    nontrivial: bool,
+    has_serde: bool,
+    /// some bucket holds >= 3 distinct strings
+    chain3: bool,
+    /// explicit Get / re-Intern of a string that is neither the first nor the latest of a bucket of >= 3
+    middle_lookup: bool,
+    /// the same after a serde round trip that rebuilt a bucket of >= 3
+    middle_lookup_after_serde: bool,
+    /// a fourth or later string was added to a bucket after the round trip and a middle one looked up
+    middle_lookup_after_serde_and_growth: bool,
+}
+
+impl IStats {
+    fn classes(&self, case: &mut Case) {
+        case.class_if(self.has_serde, "has_serde");
+        case.class_if(self.chain3, "bucket_of>=3_strings");
+        case.class_if(self.middle_lookup, "middle_of_bucket_looked_up");
+        case.class_if(self.middle_lookup_after_serde, "middle_of_bucket_looked_up_after_serde");
+        case.class_if(self.middle_lookup_after_serde_and_growth, "middle_of_bucket_looked_up_after_serde_then_growth");
+    }
+}
+
+fn interner_oracle<S: std::hash::BuildHasher + Default>(ops: &[IOp], bucket: BucketFn) -> Result<IStats, String> {
+    use std::num::NonZeroU32;
+    let mut it: Interner<NonZeroU32, S> = Default::default();
     let mut model: Vec<String> = vec![]; // index = order of first interning
-    let mut keys: Vec<std::num::NonZeroU32> = vec![];
+    let mut keys: Vec<NonZeroU32> = vec![];
     let mut had_dup_after_serde = false;
     let mut serde_seen = false;
+    let mut grown_after_serde = false;
+    let mut st = IStats::default();
+    // position of s inside its bucket: (index, size), in interning order
+    let place = |model: &[String], s: &str| -> Option<(usize, usize)> {
+        let b = bucket(s)?;
+        let members: Vec<&String> = model.iter().filter(|m| bucket(m) == Some(b)).collect();
+        members.iter().position(|m| m.as_str() == s).map(|p| (p, members.len()))
+    };
     for (i, op) in ops.iter().enumerate() {
+        if let IOp::Intern(s) | IOp::Get(s) = op {
+            if let Some((p, n)) = place(&model, s) {
+                if n >= 3 && p > 0 && p + 1 < n {
+                    st.middle_lookup = true;
+                    st.middle_lookup_after_serde |= serde_seen;
+                    st.middle_lookup_after_serde_and_growth |= grown_after_serde;
+                }
+            }
+        }
         match op {
             IOp::Intern(s) => {
                 let k = it.get_or_intern(s);
@@ -393,6 +583,10 @@ fn interner_oracle<S: std::hash::BuildHasher + Default>(ops: &[IOp]) -> Result<b
                         }
                         model.push(s.clone());
                         keys.push(k);
+                        if let Some((_, n)) = place(&model, s) {
+                            st.chain3 |= n >= 3;
+                            grown_after_serde |= serde_seen && n >= 4;
+                        }
                     }
                 }
             }
@@ -407,6 +601,7 @@ fn interner_oracle<S: std::hash::BuildHasher + Default>(ops: &[IOp]) -> Result<b
                 let text = serde_json::to_string(&it).map_err(|e| format!("serialize: {e}"))?;
                 it = serde_json::from_str(&text).map_err(|e| format!("deserialize: {e}"))?;
                 serde_seen = true;
+                st.has_serde = true;
             }
         }
         for (p, s) in model.iter().enumerate() {
@@ -418,8 +613,21 @@ fn interner_oracle<S: std::hash::BuildHasher + Default>(ops: &[IOp]) -> Result<b
                 return Err(format!("step {i}: get({s:?}) = {:?}, expected {:?}", it.get(s), keys[p]));
             }
         }
+        // keys that were never issued resolve to nothing (documented Option; matters after
+        // deserialising an interner shorter than keys held elsewhere)
+        let n = model.len() as u32;
+        for never in [n + 1, n + 2, u32::MAX] {
+            let k = NonZeroU32::new(never).unwrap();
+            if !keys.contains(&k) {
+                let r = it.resolve(k);
+                if r.is_some() {
+                    return Err(format!("step {i}: resolve({never}) = {r:?} although only {n} keys were issued"));
+                }
+            }
+        }
     }
-    Ok(model.len() >= 3 && (had_dup_after_serde || ops.iter().any(|o| matches!(o, IOp::Get(_)))))
+    st.nontrivial = model.len() >= 3 && (had_dup_after_serde || ops.iter().any(|o| matches!(o, IOp::Get(_))));
+    Ok(st)
 }
 
 fn interner_strategy() -> impl Strategy<Value = Vec<IOp>> {
@@ -437,6 +645,32 @@ fn interner_strategy() -> impl Strategy<Value = Vec<IOp>> {
     proptest::collection::vec(op, 0..40)
 }
 
+/// Sequence number `i` over the 2*|pool|+1 symbols Intern(s), Get(s), Serde; shortest first.
+fn iops_from_index(mut i: u64, max_len: usize, pool: &[&str]) -> Vec<IOp> {
+    let n = 2 * pool.len() as u64 + 1;
+    let mut len = 0usize;
+    let mut block = 1u64;
+    while i >= block {
+        i -= block;
+        block *= n;
+        len += 1;
+        assert!(len <= max_len);
+    }
+    let mut ops = Vec::with_capacity(len);
+    for _ in 0..len {
+        let d = (i % n) as usize;
+        i /= n;
+        ops.push(if d < pool.len() {
+            IOp::Intern(pool[d].to_string())
+        } else if d < 2 * pool.len() {
+            IOp::Get(pool[d - pool.len()].to_string())
+        } else {
+            IOp::Serde
+        });
+    }
+    ops
+}
+
 // ---------------------------------------------------------------------------------
 // Matcher
 
@@ -446,17 +680,88 @@ pub struct MCase {
     text: Vec<u8>,
 }
 
+fn naive_hit(pattern: &[u8], text: &[u8], i: usize) -> bool {
+    i + 1 >= pattern.len() && text[i + 1 - pattern.len()..=i] == pattern[..]
+}
+
+/// Everything a `Nevec` lets one read must agree with the `Vec` holding the same elements.
+fn nevec_observe<T: PartialEq + Clone + std::fmt::Debug>(v: &Nevec<T>, m: &[T], at: &str) -> Result<(), String> {
+    if v.len() != m.len() {
+        return Err(format!("{at}: len() = {}, expected {}", v.len(), m.len()));
+    }
+    if Some(v.last()) != m.last() {
+        return Err(format!("{at}: last() = {:?}, expected {:?}", v.last(), m.last()));
+    }
+    for i in 0..m.len() + 2 {
+        if v.get(i) != m.get(i) {
+            return Err(format!("{at}: get({i}) = {:?}, expected {:?}", v.get(i), m.get(i)));
+        }
+    }
+    for (i, x) in m.iter().enumerate() {
+        if v[i] != *x {
+            return Err(format!("{at}: [{i}] = {:?}, expected {:?}", v[i], x));
+        }
+    }
+    let it: Vec<T> = v.into_iter().cloned().collect();
+    if it != m {
+        return Err(format!("{at}: iteration yields {it:?}, expected {m:?}"));
+    }
+    let mut n = 0usize;
+    for x in v {
+        if m.get(n) != Some(x) {
+            return Err(format!("{at}: for-loop element {n} = {x:?}, expected {:?}", m.get(n)));
+        }
+        n += 1;
+    }
+    if n != m.len() {
+        return Err(format!("{at}: for-loop ran {n} times, expected {}", m.len()));
+    }
+    let mut c = v.clone();
+    if Some(&*c.last_mut()) != m.last() {
+        return Err(format!("{at}: last_mut() reads {:?}, expected {:?}", c.last_mut(), m.last()));
+    }
+    let popped = c.pop();
+    if Some(&popped) != m.last() {
+        return Err(format!("{at}: pop() = {popped:?}, expected {:?}", m.last()));
+    }
+    Ok(())
+}
+
 fn matcher_oracle(c: &MCase) -> Result<bool, String> {
-    let m = Matcher::new(Nevec::new_with_tail(c.pattern[0], c.pattern[1..].to_vec()));
+    let p = &c.pattern;
+    // the two ways texlang builds a delimiter: all at once, or first element + push
+    let sub = if (p.len() + c.text.len()) % 2 == 0 {
+        Nevec::new_with_tail(p[0], p[1..].to_vec())
+    } else {
+        let mut n = nevec![p[0]];
+        for x in &p[1..] {
+            n.push(*x);
+        }
+        n
+    };
+    let m = Matcher::new(sub);
+    // The accessors texlang::texmacro relies on (`substring().last()` for the `#{` rule,
+    // `substring().len()` for removing the delimiter): the matcher hands back its pattern.
+    nevec_observe(m.substring(), p, &format!("pattern {p:?}: substring()"))?;
+    nevec_observe(&m.clone().take_substring(), p, &format!("pattern {p:?}: take_substring()"))?;
+    // One Matcher, several searches: the text and its reverse are fed alternately to two
+    // searches; a third search starts after the first two were used.
+    let rev: Vec<u8> = c.text.iter().rev().copied().collect();
     let mut s = m.start();
+    let mut s2 = m.start();
     let mut hits = 0;
     let mut last_hit: Option<usize> = None;
     let mut overlap = false;
     for i in 0..c.text.len() {
         let got = s.next(&c.text[i]);
-        let exp = i + 1 >= c.pattern.len() && c.text[i + 1 - c.pattern.len()..=i] == c.pattern[..];
+        let got2 = s2.next(&rev[i]);
+        let exp = naive_hit(p, &c.text, i);
         if got != exp {
             return Err(format!("pattern {:?} text {:?}: at position {i} matcher says {got}, naive says {exp}", c.pattern, c.text));
+        }
+        let exp2 = naive_hit(p, &rev, i);
+        if got2 != exp2 {
+            return Err(format!("pattern {:?} text {:?} (second search of the same matcher, interleaved with a search of the reversed text): at position {i} matcher says {got2}, naive says {exp2}", c.pattern, rev));
         }
         if exp {
             hits += 1;
@@ -468,6 +773,15 @@ fn matcher_oracle(c: &MCase) -> Result<bool, String> {
             last_hit = Some(i);
         }
     }
+    let mut s3 = m.start();
+    for i in 0..c.text.len() {
+        let got = s3.next(&c.text[i]);
+        let exp = naive_hit(p, &c.text, i);
+        if got != exp {
+            return Err(format!("pattern {:?} text {:?} (fresh search after earlier searches of the same matcher): at position {i} matcher says {got}, naive says {exp}", c.pattern, c.text));
+        }
+    }
+    nevec_observe(m.substring(), p, &format!("pattern {p:?}: substring() after searching"))?;
     Ok(overlap || (hits >= 1 && c.pattern.len() >= 2))
 }
 
@@ -506,69 +820,263 @@ fn mcase_total(alpha: u64, maxp: u32, maxt: u32) -> u64 {
 }
 
 // ---------------------------------------------------------------------------------
+// Nevec against Vec
+
+#[derive(Clone, Copy, Debug, PartialEq, Eq, Serialize, Deserialize)]
+pub enum NOp {
+    Push,
+    PopTail,
+    /// write through `last_mut()`
+    SetLast,
+    /// write through `get_mut(i)` (must be `None` exactly when i >= len)
+    SetAt(u8),
+    /// `get_mut(len)` and `get_mut(len + 1)` must be `None`
+    SetPastEnd,
+}
+
+const NEVEC_ALPHABET: [NOp; 7] = [NOp::Push, NOp::PopTail, NOp::SetLast, NOp::SetAt(0), NOp::SetAt(1), NOp::SetAt(2), NOp::SetPastEnd];
+const NEVEC_CTORS: u64 = 8;
+
+#[derive(Clone, Debug, Serialize, Deserialize)]
+pub struct NCase {
+    /// 0 new, 1 with_capacity, 2/3 new_with_tail, 4/5/6 the `nevec!` forms, 7 Default
+    ctor: u8,
+    ops: Vec<NOp>,
+}
+
+fn ncase_from_index(i: u64, max_len: usize) -> NCase {
+    let ctor = (i % NEVEC_CTORS) as u8;
+    let mut i = i / NEVEC_CTORS;
+    let n = NEVEC_ALPHABET.len() as u64;
+    let mut len = 0usize;
+    let mut block = 1u64;
+    while i >= block {
+        i -= block;
+        block *= n;
+        len += 1;
+        assert!(len <= max_len);
+    }
+    let mut ops = Vec::with_capacity(len);
+    for _ in 0..len {
+        ops.push(NEVEC_ALPHABET[(i % n) as usize]);
+        i /= n;
+    }
+    NCase { ctor, ops }
+}
+
+fn nevec_oracle(c: &NCase) -> Result<bool, String> {
+    let (mut v, mut m): (Nevec<u32>, Vec<u32>) = match c.ctor {
+        0 => (Nevec::new(0), vec![0]),
+        1 => (Nevec::with_capacity(0, 3), vec![0]),
+        2 => (Nevec::new_with_tail(0, vec![1]), vec![0, 1]),
+        3 => (Nevec::new_with_tail(0, vec![1, 2]), vec![0, 1, 2]),
+        4 => (nevec![0], vec![0]),
+        5 => (nevec![0, 1], vec![0, 1]),
+        6 => (nevec![0, 1, 2,], vec![0, 1, 2]),
+        _ => (Nevec::default(), vec![0]),
+    };
+    nevec_observe(&v, &m, "after construction")?;
+    let mut shrunk_then_read = false;
+    for (i, op) in c.ops.iter().enumerate() {
+        let fresh = 10 * (i as u32 + 1); // every written value is new
+        let at = format!("step {i} {op:?}");
+        match op {
+            NOp::Push => {
+                v.push(fresh);
+                m.push(fresh);
+            }
+            NOp::PopTail => {
+                let exp = if m.len() > 1 { m.pop() } else { None };
+                let got = v.pop_from_tail();
+                if got != exp {
+                    return Err(format!("{at}: pop_from_tail() = {got:?}, expected {exp:?}"));
+                }
+                shrunk_then_read |= exp.is_some();
+            }
+            NOp::SetLast => {
+                *v.last_mut() = fresh + 1;
+                *m.last_mut().unwrap() = fresh + 1;
+            }
+            NOp::SetAt(j) => {
+                let j = *j as usize;
+                match (v.get_mut(j), m.get_mut(j)) {
+                    (Some(a), Some(b)) => {
+                        if *a != *b {
+                            return Err(format!("{at}: get_mut({j}) reads {a}, expected {b}"));
+                        }
+                        *a = fresh + 2;
+                        *b = fresh + 2;
+                    }
+                    (None, None) => {}
+                    (a, b) => return Err(format!("{at}: get_mut({j}) = {a:?}, expected {b:?}")),
+                }
+            }
+            NOp::SetPastEnd => {
+                for j in [m.len(), m.len() + 1] {
+                    if let Some(a) = v.get_mut(j) {
+                        return Err(format!("{at}: get_mut({j}) = Some({a}) on a vector of {} elements", m.len()));
+                    }
+                }
+            }
+        }
+        nevec_observe(&v, &m, &at)?;
+    }
+    let last = v.pop();
+    if Some(&last) != m.last() {
+        return Err(format!("final pop() = {last}, expected {:?}", m.last()));
+    }
+    Ok(shrunk_then_read && c.ops.contains(&NOp::Push))
+}
+
+// ---------------------------------------------------------------------------------
 // Tags
+
+fn one() -> usize {
+    1
+}
 
 #[derive(Clone, Debug, Serialize, Deserialize)]
 pub struct TagCase {
     threads: usize,
     per_thread: usize,
     round: u64,
+    /// Number of `StaticTag`s of the round.
+    #[serde(default = "one")]
+    statics: usize,
+}
+
+type Tag = texlang::command::Tag;
+
+/// Every tag this process has ever been handed (dynamic and static), over all rounds, witness
+/// replays and regression inputs: "pairwise distinct" is a statement about the process.
+fn seen_tags() -> std::sync::MutexGuard<'static, HashSet<Tag>> {
+    static SEEN: std::sync::OnceLock<std::sync::Mutex<HashSet<Tag>>> = std::sync::OnceLock::new();
+    SEEN.get_or_init(Default::default).lock().unwrap_or_else(|e| e.into_inner())
+}
+
+/// Keep the most telling panic of a round: the original one rather than the "poisoned mutex"
+/// panics it causes in the other threads.
+fn note_panic(slot: &mut Option<String>, msg: String) {
+    match slot {
+        Some(old) if !old.contains("PoisonError") || msg.contains("PoisonError") => {}
+        _ => *slot = Some(msg),
+    }
 }
 
 fn tag_oracle(c: &TagCase) -> Result<bool, String> {
-    use texlang::command::{StaticTag, Tag};
-    let st: &'static StaticTag = Box::leak(Box::new(StaticTag::new()));
-    let barrier = std::sync::Barrier::new(c.threads);
+    use texlang::command::StaticTag;
+    let ns = c.statics.max(1);
+    let sts: Vec<&'static StaticTag> = (0..ns)
+        .map(|j| -> &'static StaticTag {
+            if j % 2 == 0 {
+                Box::leak(Box::new(StaticTag::new()))
+            } else {
+                Box::leak(Box::default())
+            }
+        })
+        .collect();
+    // the spawning thread takes part in the race
+    let barrier = std::sync::Barrier::new(c.threads + 1);
     let mut all: Vec<Tag> = vec![];
-    let mut statics: Vec<Tag> = vec![];
+    let mut statics: Vec<Vec<Tag>> = vec![]; // per observing thread: the tag of every static
+    let mut panicked: Option<String> = None;
     std::thread::scope(|s| {
         let mut hs = vec![];
         for t in 0..c.threads {
             let barrier = &barrier;
+            let sts = &sts;
             let n = c.per_thread;
             hs.push(s.spawn(move || {
                 barrier.wait();
-                let mut v = Vec::with_capacity(n);
-                let mut sv = None;
-                for i in 0..n {
-                    if i == (t % n.max(1)) {
-                        sv = Some(st.get());
+                panics::catch(|| {
+                    let mut v = Vec::with_capacity(n);
+                    let mut sv: Vec<Option<Tag>> = vec![None; ns];
+                    for i in 0..n {
+                        if i == (t % n.max(1)) {
+                            // every thread asks for the statics in its own order
+                            for j in 0..ns {
+                                let id = (t + j) % ns;
+                                sv[id] = Some(sts[id].get());
+                            }
+                        }
+                        v.push(Tag::new());
                     }
-                    v.push(Tag::new());
-                }
-                (v, sv.unwrap_or_else(|| st.get()))
+                    let sv: Vec<Tag> = (0..ns).map(|id| sv[id].unwrap_or_else(|| sts[id].get())).collect();
+                    (v, sv)
+                })
             }));
         }
+        barrier.wait();
+        match panics::catch(|| (0..c.per_thread.min(50)).map(|_| Tag::new()).collect::<Vec<Tag>>()) {
+            Ok(v) => all.extend(v),
+            Err(p) => note_panic(&mut panicked, format!("panic at {}: {}", p.site(), p.message)),
+        }
         for h in hs {
-            let (v, sv) = h.join().unwrap();
-            all.extend(v);
-            statics.push(sv);
+            match h.join() {
+                Ok(Ok((v, sv))) => {
+                    all.extend(v);
+                    statics.push(sv);
+                }
+                Ok(Err(p)) => note_panic(&mut panicked, format!("panic at {}: {}", p.site(), p.message)),
+                Err(_) => note_panic(&mut panicked, "a tag-creating thread died".into()),
+            }
         }
     });
+    if let Some(p) = panicked {
+        return Err(format!("creating tags from {} threads: {p}", c.threads + 1));
+    }
     let n = all.len();
-    let set: std::collections::HashSet<Tag> = all.iter().copied().collect();
+    let set: HashSet<Tag> = all.iter().copied().collect();
     if set.len() != n {
-        return Err(format!("{} tags created by {} threads, only {} distinct", n, c.threads, set.len()));
+        return Err(format!("{} tags created by {} threads, only {} distinct", n, c.threads + 1, set.len()));
     }
-    let s0 = statics[0];
-    if statics.iter().any(|s| *s != s0) {
-        return Err("StaticTag::get returned different tags in different threads".into());
+    let mut seen = seen_tags();
+    for t in &all {
+        if !seen.insert(*t) {
+            return Err(format!("{t:?}, created in round {}, had already been handed out earlier in this process", c.round));
+        }
     }
-    if st.get() != s0 {
-        return Err("StaticTag::get not stable".into());
-    }
-    if set.contains(&s0) {
-        return Err("static tag collides with a dynamically created tag".into());
+    for id in 0..ns {
+        let s0 = statics[0][id];
+        if statics.iter().any(|sv| sv[id] != s0) {
+            return Err("StaticTag::get returned different tags in different threads".into());
+        }
+        if sts[id].get() != s0 {
+            return Err("StaticTag::get not stable".into());
+        }
+        for other in 0..id {
+            if statics[0][other] == s0 {
+                return Err(format!("two different StaticTags resolve to the same tag {s0:?}"));
+            }
+        }
+        if set.contains(&s0) {
+            return Err("static tag collides with a dynamically created tag".into());
+        }
+        if !seen.insert(s0) {
+            return Err(format!("static tag {s0:?} of round {} had already been handed out earlier in this process", c.round));
+        }
     }
     Ok(c.threads >= 2)
+}
+
+fn tag_verdict(c: &TagCase) -> Verdict {
+    match panics::catch(|| tag_oracle(c)) {
+        Ok(Ok(nt)) => Verdict::pass(nt),
+        Ok(Err(e)) => Verdict::Fail(e),
+        Err(p) => Verdict::Fail(format!("panic at {}: {}", p.site(), p.message)),
+    }
 }
 
 // ---------------------------------------------------------------------------------
 
 pub fn run(ctx: &Ctx) {
-    ctx.rule("scoped map: operation histories over {local,global}x2 keys x2 values, begin, end (exhaustive up to a length, BFS over distinct abstract states, random long histories incl. iter_all rebuilds) compared step by step with a stack-of-snapshots model, non-trivial = a global insert to a key locally changed in an open group followed by a group end; interner: op sequences under colliding hashers, non-trivial = >=3 distinct strings with lookups or re-interning after a serde round trip; matcher: all pattern/text pairs, non-trivial = overlapping hits or a hit of a pattern of length>=2; tags: rounds of T threads x N creations, non-trivial = T>=2");
+    ctx.rule("scoped map: operation histories over {local,global}x2 keys x2 values, begin, end (exhaustive up to a length, BFS over distinct abstract states, random long histories incl. iter_all rebuilds, extend, containers collected from pairs, serde round trips) compared step by step (visible values through get/iter/len/is_empty/backing_container, the flag returned by insert) with a stack-of-snapshots model, non-trivial = a global insert to a key locally changed in a still open group followed by a group end; interner: op sequences under colliding hashers (all sequences over 4 strings up to a length, and random ones), non-trivial = >=3 distinct strings with lookups or re-interning after a serde round trip; matcher: all pattern/text pairs, several searches per matcher, non-trivial = overlapping hits or a hit of a pattern of length>=2; nevec: all short operation sequences against Vec, non-trivial = push and a successful pop_from_tail; tags: rounds of T+1 threads x N creations and 2-4 static tags checked against every tag of the process so far, non-trivial = T>=2");
     ctx.assume("tag uniqueness is stress-tested under the OS scheduler, not under all interleavings");
+    ctx.assume("the undocumented bool returned by GroupingContainer::insert is taken to mean 'the key had a visible value before the call' (the analogue of HashMap::insert returning Some)");
+    ctx.assume("Nevec::is_empty (doc and code contradict the std convention) and the Display format of Nevec are not observed");
     let tier = ctx.tier;
+    type HashBacking = std::collections::HashMap<usize, u8>;
+    type VecBacking = Vec<Option<u8>>;
 
     // --- scoped map, exhaustive short histories
     let max_len = tier.pick(6usize, 7usize);
@@ -587,9 +1095,9 @@ pub fn run(ctx: &Ctx) {
             |ops: &Vec<MOp>, _case| {
                 let depth = if ops.len() + 2 <= max_len.min(6) { 2 } else if ops.len() < max_len { 1 } else { 0 };
                 let r = if is_hash {
-                    run_history::<std::collections::HashMap<usize, u8>>(ops, &keys, depth, &alpha2)
+                    run_history::<HashBacking>(ops, &keys, depth, &alpha2)
                 } else {
-                    run_history::<Vec<Option<u8>>>(ops, &keys, depth, &alpha2)
+                    run_history::<VecBacking>(ops, &keys, depth, &alpha2)
                 };
                 match r {
                     Ok(()) => Verdict::pass(history_nontrivial(ops)),
@@ -600,22 +1108,85 @@ pub fn run(ctx: &Ctx) {
         ctx.extra(sub, "max_history_length", serde_json::json!(max_len));
     }
 
+    // --- scoped map, the other entry points (extend, FromIterator<(K,V)>) in every position of
+    // every short history; the rebuilt copy is continued with every symbol of the same alphabet
+    let max_len_e = tier.pick(4usize, 5usize);
+    for (sub, k0, k1) in [("map_hash_entrypoints", 0u8, 1u8), ("map_vec_entrypoints", 0u8, 2u8)] {
+        let alphabet = entry_alphabet(k0, k1);
+        let total: u64 = (0..=max_len_e as u32).map(|l| (alphabet.len() as u64).pow(l)).sum();
+        let keys = vec![k0 as usize, k1 as usize, 1usize, 3usize];
+        let is_hash = sub.starts_with("map_hash");
+        let alpha2 = alphabet.clone();
+        run_indexed(
+            ctx,
+            sub,
+            total,
+            true,
+            |i| history_from_index(i, max_len_e, &alphabet),
+            |ops: &Vec<MOp>, case| {
+                let collect_in_group = {
+                    let mut depth = 0i32;
+                    let mut hit = false;
+                    for o in ops {
+                        match o {
+                            MOp::Begin => depth += 1,
+                            MOp::End => depth = (depth - 1).max(0),
+                            MOp::Collect(_) => {
+                                hit |= depth > 0;
+                                depth = 0;
+                            }
+                            _ => {}
+                        }
+                    }
+                    hit
+                };
+                let extend_in_group = {
+                    let mut depth = 0i32;
+                    let mut hit = false;
+                    for o in ops {
+                        match o {
+                            MOp::Begin => depth += 1,
+                            MOp::End => depth = (depth - 1).max(0),
+                            MOp::Collect(_) => depth = 0,
+                            MOp::Extend(p) => hit |= depth > 0 && !p.is_empty(),
+                            _ => {}
+                        }
+                    }
+                    hit
+                };
+                case.class_if(ops.iter().any(|o| matches!(o, MOp::Collect(p) if !p.is_empty())), "has_collect");
+                case.class_if(collect_in_group, "collect_replaces_container_with_open_groups");
+                case.class_if(ops.iter().any(|o| matches!(o, MOp::Extend(p) if !p.is_empty())), "has_extend");
+                case.class_if(extend_in_group, "extend_inside_group");
+                let depth = if ops.len() < max_len_e { 1 } else { 0 };
+                let r = if is_hash {
+                    run_history::<HashBacking>(ops, &keys, depth, &alpha2)
+                } else {
+                    run_history::<VecBacking>(ops, &keys, depth, &alpha2)
+                };
+                match r {
+                    Ok(()) => Verdict::pass(history_nontrivial(ops) || extend_in_group && ops.contains(&MOp::End)),
+                    Err(e) => Verdict::Fail(e),
+                }
+            },
+        );
+        ctx.extra(sub, "max_history_length", serde_json::json!(max_len_e));
+    }
+
     // --- scoped map, long random histories with rebuilds inside
     let n = tier.pick(150_000u64, 1_000_000u64);
     let keys: Vec<usize> = (0..8).collect();
     let alphabet = small_alphabet(0, 1);
     run_generated(ctx, "map_hash_random", n, || map_strategy(8, 200), |ops: &Vec<MOp>, case| {
-        case.class_if(ops.iter().any(|o| matches!(o, MOp::Rebuild)), "has_rebuild");
-        case.class_if(ops.len() >= 50, "len>=50");
-        match run_history::<std::collections::HashMap<usize, u8>>(ops, &keys, 1, &alphabet) {
+        map_classes(ops, case);
+        match run_history::<HashBacking>(ops, &keys, 1, &alphabet) {
             Ok(()) => Verdict::pass(history_nontrivial(ops)),
             Err(e) => Verdict::Fail(e),
         }
     });
     run_generated(ctx, "map_vec_random", n, || map_strategy(8, 200), |ops: &Vec<MOp>, case| {
-        case.class_if(ops.iter().any(|o| matches!(o, MOp::Rebuild)), "has_rebuild");
-        case.class_if(ops.len() >= 50, "len>=50");
-        match run_history::<Vec<Option<u8>>>(ops, &keys, 1, &alphabet) {
+        map_classes(ops, case);
+        match run_history::<VecBacking>(ops, &keys, 1, &alphabet) {
             Ok(()) => Verdict::pass(history_nontrivial(ops)),
             Err(e) => Verdict::Fail(e),
         }
@@ -623,27 +1194,61 @@ pub fn run(ctx: &Ctx) {
 
     // --- BFS over distinct abstract states
     let (depth, cap) = tier.pick((8usize, 150_000usize), (12usize, 3_000_000usize));
-    map_bfs::<std::collections::HashMap<usize, u8>>(ctx, "map_hash_bfs", depth, cap, &[0, 1], &small_alphabet(0, 1));
-    if tier == Tier::Thorough {
-        map_bfs::<Vec<Option<u8>>>(ctx, "map_vec_bfs", depth, cap, &[0, 2], &small_alphabet(0, 2));
+    map_bfs::<HashBacking>(ctx, "map_hash_bfs", depth, cap, &[0, 1], &small_alphabet(0, 1));
+    if tier == Tier::Thorough || !ctx.is_generate() {
+        map_bfs::<VecBacking>(ctx, "map_vec_bfs", depth, cap, &[0, 2], &small_alphabet(0, 2));
     }
 
-    // --- interner
-    let n = tier.pick(150_000u64, 1_000_000u64);
-    run_generated(ctx, "interner_constant_hash", n, interner_strategy, |ops: &Vec<IOp>, case| {
-        case.class_if(ops.iter().any(|o| matches!(o, IOp::Serde)), "has_serde");
-        match interner_oracle::<ConstantBuild>(ops) {
-            Ok(nt) => Verdict::pass(nt),
+    // --- interner, every sequence over 4 strings (a bucket of 3 and more; one string elsewhere
+    // under the length hasher) up to a length: chains of >= 3 colliding strings, lookups and
+    // re-interning of their middle elements, before and after the deserialisation rebuild
+    let max_len_i = tier.pick(6usize, 7usize);
+    let total_i: u64 = (0..=max_len_i as u32).map(|l| 9u64.pow(l)).sum();
+    run_indexed(ctx, "interner_constant_exhaustive", total_i, true, |i| iops_from_index(i, max_len_i, &["", "a", "ab", "b"]), |ops: &Vec<IOp>, case| {
+        match interner_oracle::<ConstantBuild>(ops, bucket_constant) {
+            Ok(st) => {
+                st.classes(case);
+                Verdict::pass(st.nontrivial)
+            }
             Err(e) => Verdict::Fail(e),
         }
     });
-    run_generated(ctx, "interner_len_hash", n / 2, interner_strategy, |ops: &Vec<IOp>, _| match interner_oracle::<LenBuild>(ops) {
-        Ok(nt) => Verdict::pass(nt),
+    ctx.extra("interner_constant_exhaustive", "max_sequence_length", serde_json::json!(max_len_i));
+    run_indexed(ctx, "interner_len_exhaustive", total_i, true, |i| iops_from_index(i, max_len_i, &["a", "b", "c", "ab"]), |ops: &Vec<IOp>, case| {
+        match interner_oracle::<LenBuild>(ops, bucket_len) {
+            Ok(st) => {
+                st.classes(case);
+                Verdict::pass(st.nontrivial)
+            }
+            Err(e) => Verdict::Fail(e),
+        }
+    });
+    ctx.extra("interner_len_exhaustive", "max_sequence_length", serde_json::json!(max_len_i));
+
+    // --- interner, random
+    let n = tier.pick(150_000u64, 1_000_000u64);
+    run_generated(ctx, "interner_constant_hash", n, interner_strategy, |ops: &Vec<IOp>, case| {
+        match interner_oracle::<ConstantBuild>(ops, bucket_constant) {
+            Ok(st) => {
+                st.classes(case);
+                Verdict::pass(st.nontrivial)
+            }
+            Err(e) => Verdict::Fail(e),
+        }
+    });
+    run_generated(ctx, "interner_len_hash", n / 2, interner_strategy, |ops: &Vec<IOp>, case| match interner_oracle::<LenBuild>(ops, bucket_len) {
+        Ok(st) => {
+            st.classes(case);
+            Verdict::pass(st.nontrivial)
+        }
         Err(e) => Verdict::Fail(e),
     });
-    run_generated(ctx, "interner_default_hash", n / 2, interner_strategy, |ops: &Vec<IOp>, _| {
-        match interner_oracle::<std::collections::hash_map::RandomState>(ops) {
-            Ok(nt) => Verdict::pass(nt),
+    run_generated(ctx, "interner_default_hash", n / 2, interner_strategy, |ops: &Vec<IOp>, case| {
+        match interner_oracle::<std::collections::hash_map::RandomState>(ops, bucket_unknown) {
+            Ok(st) => {
+                st.classes(case);
+                Verdict::pass(st.nontrivial)
+            }
             Err(e) => Verdict::Fail(e),
         }
     });
@@ -662,15 +1267,38 @@ pub fn run(ctx: &Ctx) {
         Err(e) => Verdict::Fail(e),
     });
 
+    // --- nevec against Vec, exhaustive
+    let max_len_n = tier.pick(5usize, 7usize);
+    let total_n: u64 = NEVEC_CTORS * (0..=max_len_n as u32).map(|l| (NEVEC_ALPHABET.len() as u64).pow(l)).sum::<u64>();
+    run_indexed(ctx, "nevec_model", total_n, true, |i| ncase_from_index(i, max_len_n), |c: &NCase, case| {
+        case.class_if(c.ops.iter().any(|o| matches!(o, NOp::SetAt(_))), "writes_through_get_mut");
+        case.class_if(c.ops.contains(&NOp::PopTail), "has_pop_from_tail");
+        match nevec_oracle(c) {
+            Ok(nt) => Verdict::pass(nt),
+            Err(e) => Verdict::Fail(e),
+        }
+    });
+    ctx.extra("nevec_model", "max_sequence_length", serde_json::json!(max_len_n));
+
     // --- tags (single "worker": the oracle spawns its own threads)
     let rounds = tier.pick(1_500u64, 20_000u64);
     if let Mode::Replay { sub, case } = &ctx.mode {
         if sub == "tags" {
-            let c: TagCase = serde_json::from_value(case.clone()).unwrap();
-            let v = match tag_oracle(&c) {
-                Ok(nt) => Verdict::pass(nt),
-                Err(e) => Verdict::Fail(e),
+            let c: TagCase = match serde_json::from_value(case.clone()) {
+                Ok(c) => c,
+                Err(e) => {
+                    eprintln!("replay file does not decode for {}:tags: {}", ctx.prop, e);
+                    std::process::exit(2);
+                }
             };
+            // A duplicate across rounds needs more than one round to show: the stored round is
+            // run three times against the process-wide set of tags.
+            let mut v = tag_verdict(&c);
+            for _ in 0..2 {
+                if matches!(v, Verdict::Pass { .. }) {
+                    v = tag_verdict(&c);
+                }
+            }
             ctx.replay_verdicts.lock().unwrap().push(("tags".into(), v));
         }
     } else {
@@ -680,11 +1308,12 @@ pub fn run(ctx: &Ctx) {
 
 fn run_tags(ctx: &Ctx, rounds: u64) {
     // Sequential over rounds on purpose: each round owns all cores for maximal contention.
-    let sizes = [2usize, 3, 4, 8, 16, 32, 64];
+    let sizes = [1usize, 2, 3, 4, 8, 16, 32, 64];
     run_indexed_serial(ctx, "tags", rounds, |i| TagCase {
         threads: sizes[(i % sizes.len() as u64) as usize],
-        per_thread: [1usize, 2, 50, 400][((i / 7) % 4) as usize],
+        per_thread: [1usize, 2, 50, 400][((i / sizes.len() as u64) % 4) as usize],
         round: i,
+        statics: 2 + (i % 3) as usize,
     });
 }
 
@@ -695,23 +1324,25 @@ fn run_indexed_serial(ctx: &Ctx, sub: &str, total: u64, make: impl Fn(u64) -> Ta
     let mut evals = 0u64;
     let mut nt = 0u64;
     let mut sample = vec![];
+    let mut tags_checked = 0u64;
     for i in 0..total {
         let c = make(i);
         evals += 1;
-        match tag_oracle(&c) {
-            Ok(n) => {
-                if n {
-                    nt += 1;
-                    if sample.len() < 2 {
-                        sample.push(format!("{:?}", c));
-                    }
-                }
-            }
-            Err(e) => {
+        match tag_verdict(&c) {
+            Verdict::Fail(e) => {
                 ctx.fail_external(sub, &c, &e);
                 break;
             }
+            Verdict::Pass { nontrivial: true } => {
+                nt += 1;
+                if sample.len() < 2 {
+                    sample.push(format!("{:?}", c));
+                }
+            }
+            _ => {}
         }
+        tags_checked = seen_tags().len() as u64;
     }
     ctx.add_stats(sub, evals, nt, sample);
+    ctx.extra(sub, "distinct_tags_in_process_wide_set", serde_json::json!(tags_checked));
 }
